@@ -77,7 +77,7 @@ def _norm_dtype(dt):
         if dt.startswith("U") or dt.startswith("<U"):
             return "str"
         raise Unsupported(f"dtype {dt}")
-    if dt is float:
+    if dt is float or getattr(dt, "__name__", "") == "b_float":
         return "f8"
     if dt is int:
         return "i8"
